@@ -121,26 +121,25 @@ Proof. vm_compute. reflexivity. Qed.
 
 (* the hypotheses of [normalize_correct] are satisfiable together, with a graph the pass changes *)
 Example normalize_correct_nonvacuous :
-  exists g s, wf g /\ cond_full g /\ (forall p b, reach g s p -> g_blk g p = Some b -> dist_b b) /\
-              inc_covers g s /\ g_inc g s = [] /\ g_blk (fst (normalize g s)) <> g_blk g.
+  exists g s, wf g /\ cond_full g /\ inc_covers g s /\ g_inc g s = [] /\
+              g_blk (fst (normalize g s)) <> g_blk g.
 Proof.
   exists (with_incoming g_loop 0), 0.
   assert (W : wf (with_incoming g_loop 0)) by apply wf_with_incoming_mk.
   pose proof (norm_pre_check_sound _ W (eq_refl : norm_pre_check (with_incoming g_loop 0) = true)) as P.
   split; [exact W|]. split; [intros i b E; exact (proj1 (P i b E))|].
-  split; [intros p b _ E; exact (proj2 (P p b E))|].
   split.
   - apply cov_of_tree_valid. apply (validate_tree_iff _ _ W). vm_compute. reflexivity.
   - split; [vm_compute; reflexivity|].
     intros H. apply (f_equal (fun f => f 1)) in H. vm_compute in H. discriminate.
 Qed.
 
-(* ---- C20: the defects ---- *)
-(* (1) the faithful model: an empty start block in front of a loop head *)
-Theorem normalize_keeps_tree_valid_refuted :
+(* ---- C20, HISTORICAL: the defects of the code before the repair 39fa261 of /repo ---- *)
+(* (1) the pinned code: an empty start block in front of a loop head *)
+Theorem normalize_pinned_keeps_tree_valid_refuted :
   exists g s,
-    wf g /\ inc_exact g s /\ norm_cert g s = true /\ validate_tree g s = true /\
-    (let '(g', s') := normalize g s in validate_tree g' s') = false.
+    wf g /\ inc_exact g s /\ norm_cert_pinned g s = true /\ validate_tree g s = true /\
+    (let '(g', s') := normalize_pinned g s in validate_tree g' s') = false.
 Proof.
   exists (with_incoming g_loop_first 0), 0.
   destruct (add_incoming_exact g_loop_first 0 (wf_mk_graph _) (fun b _ => eq_refl)) as (B & N & X).
@@ -149,17 +148,17 @@ Proof.
 Qed.
 
 (* the one-line repair (start = outgoing[0]) cures that witness ... *)
-Example normalize_fixed_cures_loop_first :
-  (let '(g', s') := normalize_fixed (with_incoming g_loop_first 0) 0 in validate_tree g' s') = true.
+Example normalize_startfix_cures_loop_first :
+  (let '(g', s') := normalize_startfix (with_incoming g_loop_first 0) 0 in validate_tree g' s') = true.
 Proof. vm_compute. reflexivity. Qed.
 
 (* (2) ... but not this one: replaceOutgoing re-points only ONE branch of a conditional block whose
    two branches have both been redirected to the same empty block *)
-Theorem normalize_fixed_keeps_tree_valid_refuted :
+Theorem normalize_startfix_keeps_tree_valid_refuted :
   exists g s,
-    wf g /\ inc_exact g s /\ norm_cert g s = true /\ validate_tree g s = true /\
-    (let '(g', s') := normalize_fixed g s in validate_tree g' s') = false /\
-    (let '(g', s') := normalize g s in validate_tree g' s') = false.
+    wf g /\ inc_exact g s /\ norm_cert_pinned g s = true /\ validate_tree g s = true /\
+    (let '(g', s') := normalize_startfix g s in validate_tree g' s') = false /\
+    (let '(g', s') := normalize_pinned g s in validate_tree g' s') = false.
 Proof.
   exists (with_incoming g_if_empty_then_loop 0), 0.
   destruct (add_incoming_exact g_if_empty_then_loop 0 (wf_mk_graph _) (fun b _ => eq_refl)) as (B & N & X).
@@ -167,16 +166,16 @@ Proof.
   repeat split; vm_compute; reflexivity.
 Qed.
 
-Example normalize_fixed2_cures_if_empty :
-  (let '(g', s') := normalize_fixed2 (with_incoming g_if_empty_then_loop 0) 0 in validate_tree g' s') = true.
+Example normalize_noskip_cures_if_empty :
+  (let '(g', s') := normalize_noskip (with_incoming g_if_empty_then_loop 0) 0 in validate_tree g' s') = true.
 Proof. vm_compute. reflexivity. Qed.
 
 (* (3) with both repairs, the only remaining counterexamples contain an empty block that is its own
    successor (never produced by lowering: every PyTeal loop has a conditional block) *)
-Theorem normalize_fixed2_keeps_tree_valid_refuted :
+Theorem normalize_noskip_keeps_tree_valid_refuted :
   exists g s,
     wf g /\ inc_exact g s /\ validate_tree g s = true /\
-    (let '(g', s') := normalize_fixed2 g s in validate_tree g' s') = false.
+    (let '(g', s') := normalize_noskip g s in validate_tree g' s') = false.
 Proof.
   exists (with_incoming g_empty_self_loop 0), 0.
   destruct (add_incoming_exact g_empty_self_loop 0 (wf_mk_graph _) (fun b _ => eq_refl)) as (B & N & X).
@@ -184,24 +183,24 @@ Proof.
   repeat split; vm_compute; reflexivity.
 Qed.
 
-Example normalize_fixed3_on_witnesses :
-  (let '(g', s') := normalize_fixed3 (with_incoming g_loop_first 0) 0 in validate_tree g' s') = true /\
-  (let '(g', s') := normalize_fixed3 (with_incoming g_if_empty_then_loop 0) 0 in validate_tree g' s') = true /\
-  (let '(g', s') := normalize_fixed3 (with_incoming g_empty_self_loop 0) 0 in validate_tree g' s') = true.
+Example normalize_on_witnesses :
+  (let '(g', s') := normalize (with_incoming g_loop_first 0) 0 in validate_tree g' s') = true /\
+  (let '(g', s') := normalize (with_incoming g_if_empty_then_loop 0) 0 in validate_tree g' s') = true /\
+  (let '(g', s') := normalize (with_incoming g_empty_self_loop 0) 0 in validate_tree g' s') = true.
 Proof. repeat split; vm_compute; reflexivity. Qed.
 
 Theorem repairs_on_witnesses :
-  (let '(g', s') := normalize_fixed (with_incoming g_loop_first 0) 0 in validate_tree g' s') = true /\
-  (let '(g', s') := normalize_fixed2 (with_incoming g_if_empty_then_loop 0) 0 in validate_tree g' s') = true /\
-  (let '(g', s') := normalize_fixed3 (with_incoming g_loop_first 0) 0 in validate_tree g' s') = true /\
-  (let '(g', s') := normalize_fixed3 (with_incoming g_if_empty_then_loop 0) 0 in validate_tree g' s') = true /\
-  (let '(g', s') := normalize_fixed3 (with_incoming g_empty_self_loop 0) 0 in validate_tree g' s') = true.
+  (let '(g', s') := normalize_startfix (with_incoming g_loop_first 0) 0 in validate_tree g' s') = true /\
+  (let '(g', s') := normalize_noskip (with_incoming g_if_empty_then_loop 0) 0 in validate_tree g' s') = true /\
+  (let '(g', s') := normalize (with_incoming g_loop_first 0) 0 in validate_tree g' s') = true /\
+  (let '(g', s') := normalize (with_incoming g_if_empty_then_loop 0) 0 in validate_tree g' s') = true /\
+  (let '(g', s') := normalize (with_incoming g_empty_self_loop 0) 0 in validate_tree g' s') = true.
 Proof.
-  split; [exact normalize_fixed_cures_loop_first|]. split; [exact normalize_fixed2_cures_if_empty|].
-  exact normalize_fixed3_on_witnesses.
+  split; [exact normalize_startfix_cures_loop_first|]. split; [exact normalize_noskip_cures_if_empty|].
+  exact normalize_on_witnesses.
 Qed.
 
-(* ---- C01: the side conditions of [normalize_correct] are needed ---- *)
+(* ---- C01: side conditions ---- *)
 Definition env0 : denv :=
   mkEnv (mkCtx true [] 0 [] [] 0) (fun x => x) [] [] false (fun _ => mkI O_err []).
 Definition st0 : mstate := init_state [] [] [].
@@ -223,17 +222,18 @@ Proof.
   eapply star_step; [exact E|apply IH].
 Qed.
 
-(* (a) a conditional block whose two branches are the same block: pass 1 re-points one branch only,
-   the merged predecessor stays reachable and its ops run twice *)
+(* (a) HISTORICAL (the [elif] replacement): a conditional block whose two branches are the same
+   block: pass 1 re-points one branch only, the merged predecessor stays reachable and its ops run
+   twice.  The current code is correct on this graph ([normalize_correct] has no such hypothesis). *)
 Definition g_double_edge : graph :=
   mk_graph [ BCond [] (Some 1) (Some 1);
              BSimple [op O_pop] (Some 2);
              BSimple [op O_return_] None ].
 
-Theorem normalize_double_edge_refuted :
+Theorem normalize_pinned_double_edge_refuted :
   exists g s,
     wf g /\ cond_full g /\ inc_covers g s /\ g_inc g s = [] /\ validate_tree g s = true /\
-    let '(g', s') := normalize g s in
+    let '(g', s') := normalize_pinned g s in
     ~ equiv_from env0 (g_blk g) s (g_blk g') s'.
 Proof.
   exists (with_incoming g_double_edge 0), 0.
@@ -250,7 +250,7 @@ Proof.
     - destruct i; discriminate. }
   split; [apply cov_of_tree_valid; apply (validate_tree_iff _ _ W); exact V|].
   split; [vm_compute; reflexivity|]. split; [exact V|].
-  destruct (normalize (with_incoming g_double_edge 0) 0) as [g' s'] eqn:E.
+  destruct (normalize_pinned (with_incoming g_double_edge 0) 0) as [g' s'] eqn:E.
   intros Q.
   pose (stk := [VI 0; VI 7; VI 9]).
   specialize (Q stk st0 (GExit (VI 9) st0) Logic.I).
@@ -264,15 +264,16 @@ Proof.
   pose proof (star_det_halting _ _ _ _ _ S1 Logic.I S2 Logic.I) as K. discriminate.
 Qed.
 
-(* (b) a start block with an incoming edge whose source gets merged into it: the merged ops run
-   before the start block's own ops on entry *)
+(* (b) CURRENT code: the hypothesis [g_inc g s = []] of [normalize_correct] is needed — a start block
+   with an incoming edge whose source gets merged into it: the merged ops run before the start block's
+   own ops on entry *)
 Definition g_start_with_pred : graph :=
   mk_graph [ BSimple [op O_pop] (Some 1);
              BSimple [op O_return_] (Some 0) ].
 
 Theorem normalize_start_with_pred_refuted :
   exists g s,
-    wf g /\ norm_pre_check g = true /\ inc_covers g s /\ validate_tree g s = true /\
+    wf g /\ cond_full_check g = true /\ inc_covers g s /\ validate_tree g s = true /\
     let '(g', s') := normalize g s in
     ~ equiv_from env0 (g_blk g) s (g_blk g') s'.
 Proof.
